@@ -12,6 +12,8 @@ EXTRA = {"C07-A": ["C08"], "C04-C": ["C08"], "C07-C": ["C08"], "C07-F": ["C08"],
 def run_one(sid):
     d = os.path.join(SEEDED, sid)
     meta = json.load(open(os.path.join(d, "meta.json")))
+    if os.environ.get("VERIF_SNAPSHOT_ID") and meta.get("checked_with") == os.environ["VERIF_SNAPSHOT_ID"] and "error" not in (meta.get("current_checks") or {}):
+        return sid          # already checked with this snapshot of the checks
     tmp = tempfile.mkdtemp(prefix="seedrep_")
     try:
         shutil.copytree("/repo/dataiter", os.path.join(tmp, "dataiter"), ignore=shutil.ignore_patterns("__pycache__"))
@@ -21,16 +23,16 @@ def run_one(sid):
         else:
             props = [meta["breaks_property"]] + EXTRA.get(sid, [])
             out = {}
-            for p in props:
-                if any(v.get("exit") == 1 for t in out.values() for v in t.values()):
-                    break          # already caught by an earlier (the target) property
-                for tier in ("quick", "thorough"):
+            # quick tier of the target property and of the extra ones first, thorough tiers only if every quick tier misses
+            for tier in ("quick", "thorough"):
+                for p in props:
+                    if any(v.get("exit") == 1 for t in out.values() for v in t.values()):
+                        break
                     r = subprocess.run([os.environ.get("VERIF_SNAPSHOT", "/verif") + "/check", p, "--tier", tier, "--no-evidence"], env=dict(os.environ, VERIF_REPO=tmp), capture_output=True, text=True)
                     keys = [l.split()[1].rstrip(":") for l in r.stdout.splitlines() if l.startswith("violation ")]
                     out.setdefault(p, {})[tier] = {"exit": r.returncode, "keys": keys[:4]}
-                    if r.returncode == 1:
-                        break
             meta["current_checks"] = out
+            meta["checked_with"] = os.environ.get("VERIF_SNAPSHOT_ID", "")
         json.dump(meta, open(os.path.join(d, "meta.json"), "w"), indent=1)
     finally:
         shutil.rmtree(tmp, ignore_errors=True)
